@@ -8,7 +8,7 @@ d = open(os.path.join(HERE, "DESIGN.md")).read()
 a = d.index("### 8.7 Rules added after section 4 was written")
 b = d.index("Engine changes of the same period", a)
 head = ("### 8.7 Rules added after section 4 was written\n"
-        "Section 4 describes the rules as planned and first built.  The rules below were added in rounds 2 to 8 (8.6); "
+        "Section 4 describes the rules as planned and first built.  The rules below were added in rounds 2 to 9 (8.6); "
         "`MANIFEST.json` (`level_claimed.text`) and the evidence files name them too.\n\n")
 bul = "".join("* **%s.**%s\n" % (k, m.ADDENDA[k]) for k in sorted(m.ADDENDA))
 open(os.path.join(HERE, "DESIGN.md"), "w").write(d[:a] + head + bul + "\n" + d[b:])
